@@ -114,6 +114,9 @@ struct GSpec {
     /// left out of public.openTypeCategories although categories are explicit
     #[serde(default)]
     nocat: bool,
+    /// category written instead of the glyph's natural one (explicit categories only)
+    #[serde(default)]
+    cat_override: Option<String>,
 }
 
 #[derive(Clone, Debug, Serialize, Deserialize)]
@@ -135,7 +138,7 @@ impl Spec {
             self.propagate
         );
         for g in &self.glyphs {
-            s.push_str(&format!(" {}{}{}[", g.name, if g.export { "" } else { "(no-export)" }, if g.nocat && self.explicit { "(no-category)" } else { "" }));
+            s.push_str(&format!(" {}{}{}[", g.name, if g.export { "" } else { "(no-export)" }, if g.nocat && self.explicit { "(no-category)".to_string() } else if let (true, Some(c)) = (self.explicit, &g.cat_override) { format!("(category {c})") } else { String::new() }));
             for (i, a) in g.anchors.iter().enumerate() {
                 if i > 0 {
                     s.push(',');
@@ -230,7 +233,7 @@ fn build_design(s: &Spec) -> Design {
             glyph.layers.insert(m, layer);
         }
         if s.explicit && !g.nocat {
-            d.categories.insert(g.name.clone(), cat.to_string());
+            d.categories.insert(g.name.clone(), g.cat_override.clone().unwrap_or(cat.to_string()));
         }
         d.glyphs.push(glyph);
     }
@@ -273,6 +276,7 @@ fn gspec(name: &str, anchors: &[&str], n: usize) -> GSpec {
             .collect(),
         comps: vec![],
         nocat: false,
+        cat_override: None,
     }
 }
 
@@ -361,53 +365,6 @@ fn spaces(tier: Tier) -> Vec<Space> {
         });
     }
 
-    // S2: attaching glyphs x mark structure
-    {
-        let quick = tier == Tier::Quick;
-        // (layout, composite variants): quick one block; thorough two masters with composites
-        // (none / no own anchors, constant offset / own top) plus three masters without composite
-        let blocks: Vec<(Layout, Vec<usize>)> = if quick {
-            vec![(Layout::Two, vec![0])]
-        } else {
-            vec![(Layout::Two, vec![0, 1, 3]), (Layout::ThreeMid, vec![0])]
-        };
-        for (layout, comp_kinds) in blocks {
-            let marks = marks.clone();
-            let modes: Vec<(bool, bool)> = tier.pick(MODES3.to_vec(), MODES4.to_vec());
-            // b: absent anchors / top / top+bottom ; quick: top only
-            let b_sets: Vec<&'static [&'static str]> = if quick { vec![&["top"]] } else { vec![&[], &["top"], &["top", "bottom"]] };
-            let grave: Vec<Vec<&'static str>> = if quick { vec![vec!["_top", "top"]] } else { marks.clone() };
-            let comps = comp_kinds.len();
-            let (nmodes, nb, ng) = (modes.len(), b_sets.len(), grave.len());
-            v.push(Space {
-                name: "attaching-x-mark",
-                what: format!(
-                    "layout {}: a: 4 subsets of top,bottom; b: {nb} sets; f_i: 4 subsets of top_1,top_2; acutecomb: {nm} subsets; gravecomb: {ng} sets; x (non-mark letter): absent, [_top], [_top,top]; composite aacute variants {comp_kinds:?}; {nmodes} modes",
-                    layout.name()
-                ),
-                radices: vec![4, nb, 4, nm, ng, 3, comps, nmodes],
-                build: Box::new(move |d| {
-                    let n = layout.masters();
-                    let (explicit, propagate) = modes[d[7]];
-                    let mut glyphs = vec![
-                        gspec("a", BASE_SETS[d[0]], n),
-                        gspec("b", b_sets[d[1]], n),
-                        gspec("f_i", LIG_SETS[d[2]], n),
-                        gspec("acutecomb", &marks[d[3]], n),
-                        gspec("gravecomb", &grave[d[4]], n),
-                    ];
-                    if let Some(x) = X_SETS[d[5]] {
-                        glyphs.push(gspec("x", x, n));
-                    }
-                    if let Some(c) = composite(comp_kinds[d[6]], n) {
-                        glyphs.push(c);
-                    }
-                    Spec { space: "attaching-x-mark".into(), layout, explicit, propagate, glyphs }
-                }),
-            });
-        }
-    }
-
     // S3: coordinates: all assignments of the alphabet to two anchors at every master
     {
         let mut pairs: Vec<((&'static str, &'static str), (&'static str, &'static str))> =
@@ -491,8 +448,8 @@ fn spaces(tier: Tier) -> Vec<Space> {
         let layouts = [Layout::One, Layout::Two, Layout::ThreeMid, Layout::ThreeEnds];
         v.push(Space {
             name: "layouts-export",
-            what: "4 layouts x 4 modes x {all exported; b / gravecomb / x[_top,top] not exported; b / gravecomb left out of explicit categories} x acutecomb in {[_top],[_top,top],[_top,_bottom,top]}; a[top,bottom] b[top] f_i[top_1,top_2] gravecomb[_top,top]".into(),
-            radices: vec![4, 4, 6, 3],
+            what: "4 layouts x 4 modes x {all exported; b / gravecomb / x[_top,top] not exported} x acutecomb in {[_top],[_top,top],[_top,_bottom,top]}; a[top,bottom] b[top] f_i[top_1,top_2] gravecomb[_top,top]".into(),
+            radices: vec![4, 4, 4, 3],
             build: Box::new(move |d| {
                 let layout = layouts[d[0]];
                 let n = layout.masters();
@@ -513,14 +470,91 @@ fn spaces(tier: Tier) -> Vec<Space> {
                         x.export = false;
                         glyphs.push(x);
                     }
-                    4 => glyphs[1].nocat = true,
-                    5 => glyphs[4].nocat = true,
                     _ => {}
                 }
                 Spec { space: "layouts-export".into(), layout, explicit, propagate, glyphs }
             }),
         });
     }
+    // S6: explicit categories that disagree with what names / code points / anchors suggest
+    {
+        let layouts = [Layout::One, Layout::Two, Layout::ThreeMid, Layout::ThreeEnds];
+        v.push(Space {
+            name: "categories-override",
+            what: "explicit categories only: 4 layouts x propagate off/on x {b left out of the categories; gravecomb left out; letter x[_top,top] categorised mark; acutecomb categorised base} x acutecomb in {[_top],[_top,top],[_top,_bottom,top]}; a[top,bottom] b[top] f_i[top_1,top_2] gravecomb[_top,top]".into(),
+            radices: vec![4, 2, 4, 3],
+            build: Box::new(move |d| {
+                let layout = layouts[d[0]];
+                let n = layout.masters();
+                let acute: [&[&str]; 3] = [&["_top"], &["_top", "top"], &["_top", "_bottom", "top"]];
+                let mut glyphs = vec![
+                    gspec("a", &["top", "bottom"], n),
+                    gspec("b", &["top"], n),
+                    gspec("f_i", &["top_1", "top_2"], n),
+                    gspec("acutecomb", acute[d[3]], n),
+                    gspec("gravecomb", &["_top", "top"], n),
+                ];
+                match d[2] {
+                    0 => glyphs[1].nocat = true,
+                    1 => glyphs[4].nocat = true,
+                    2 => {
+                        let mut x = gspec("x", &["_top", "top"], n);
+                        x.cat_override = Some("mark".into());
+                        glyphs.push(x);
+                    }
+                    _ => glyphs[3].cat_override = Some("base".into()),
+                }
+                Spec { space: "categories-override".into(), layout, explicit: true, propagate: d[1] == 1, glyphs }
+            }),
+        });
+    }
+    // S2: attaching glyphs x mark structure (by far the largest space: last, so that a time cap truncates only it)
+    {
+        let quick = tier == Tier::Quick;
+        // (layout, composite variants): quick one block; thorough two masters with composites
+        // (none / no own anchors, constant offset / own top) plus three masters without composite
+        let blocks: Vec<(Layout, Vec<usize>)> = if quick {
+            vec![(Layout::Two, vec![0])]
+        } else {
+            vec![(Layout::Two, vec![0, 1, 3]), (Layout::ThreeMid, vec![0])]
+        };
+        for (layout, comp_kinds) in blocks {
+            let marks = marks.clone();
+            let modes: Vec<(bool, bool)> = tier.pick(MODES3.to_vec(), MODES4.to_vec());
+            // b: absent anchors / top / top+bottom ; quick: top only
+            let b_sets: Vec<&'static [&'static str]> = if quick { vec![&["top"]] } else { vec![&[], &["top"], &["top", "bottom"]] };
+            let grave: Vec<Vec<&'static str>> = if quick { vec![vec!["_top", "top"]] } else { marks.clone() };
+            let comps = comp_kinds.len();
+            let (nmodes, nb, ng) = (modes.len(), b_sets.len(), grave.len());
+            v.push(Space {
+                name: "attaching-x-mark",
+                what: format!(
+                    "layout {}: a: 4 subsets of top,bottom; b: {nb} sets; f_i: 4 subsets of top_1,top_2; acutecomb: {nm} subsets; gravecomb: {ng} sets; x (non-mark letter): absent, [_top], [_top,top]; composite aacute variants {comp_kinds:?}; {nmodes} modes",
+                    layout.name()
+                ),
+                radices: vec![4, nb, 4, nm, ng, 3, comps, nmodes],
+                build: Box::new(move |d| {
+                    let n = layout.masters();
+                    let (explicit, propagate) = modes[d[7]];
+                    let mut glyphs = vec![
+                        gspec("a", BASE_SETS[d[0]], n),
+                        gspec("b", b_sets[d[1]], n),
+                        gspec("f_i", LIG_SETS[d[2]], n),
+                        gspec("acutecomb", &marks[d[3]], n),
+                        gspec("gravecomb", &grave[d[4]], n),
+                    ];
+                    if let Some(x) = X_SETS[d[5]] {
+                        glyphs.push(gspec("x", x, n));
+                    }
+                    if let Some(c) = composite(comp_kinds[d[6]], n) {
+                        glyphs.push(c);
+                    }
+                    Spec { space: "attaching-x-mark".into(), layout, explicit, propagate, glyphs }
+                }),
+            });
+        }
+    }
+
     v
 }
 
